@@ -533,6 +533,7 @@ func sliceSingleElem(sl *ssa.Slice) ssa.Value {
 					if mi, ok := st.Val.(*ssa.MakeInterface); ok {
 						return mi.X
 					}
+					return st.Val
 				}
 			}
 		}
